@@ -4,6 +4,8 @@ Helper lemmas for C02 (M-Engine): the invariant `Inv` and its preservation by
 every atomic step, closure of predicates under the engine loop, the measures
 behind loop termination, service and draining.
 -/
+set_option linter.unusedSimpArgs false
+set_option linter.unusedVariables false
 namespace Bobo.Engine
 variable {σ : Type}
 
@@ -112,5 +114,546 @@ theorem inv_recv (P : Params σ) (s : St σ) (h : Inv P s) : Inv P (recvUpdate P
         constructor <;>
           simp_all [St.published, deliverRecv, List.filter_cons, Wraps] <;> grind
     · constructor <;> simp_all [St.published, List.filter_cons]
+
+theorem inv_dec (P : Params σ) (s : St σ) (h : Inv P s) : Inv P (decUpdate P s).1 := by
+  obtain ⟨h1, h2, h3, h4, h5, h6, h7, h8, h9, h10, h11, h12, h13, h14, h15, h16⟩ := h
+  unfold decUpdate
+  split
+  · constructor <;> assumption
+  · rename_i e rest hq
+    simp only
+    split
+    · constructor <;> simp_all [St.published, deliverDec]
+    · constructor <;> simp_all [St.published]
+
+theorem inv_prod (P : Params σ) (s : St σ) (h : Inv P s) : Inv P (prodUpdate P s).1 := by
+  obtain ⟨h1, h2, h3, h4, h5, h6, h7, h8, h9, h10, h11, h12, h13, h14, h15, h16⟩ := h
+  unfold prodUpdate
+  split
+  · constructor <;> assumption
+  · rename_i r loc rest hq
+    simp only
+    split
+    · rename_i hk
+      constructor <;> simp_all [St.published, List.filter_cons, known]
+    · rename_i dg hk
+      cases loc <;> cases hlo : P.localOnly <;>
+        (constructor <;>
+          simp_all [St.published, List.filter_cons, known, deliverProd, addData, mkComplex, cxOfRun, cxOfEvent,
+            fwdTakes] <;> grind)
+
+theorem inv_fwdHandle (P : Params σ) (s : St σ) (h : Inv P s) : Inv P (fwdHandle P s).1 := by
+  obtain ⟨h1, h2, h3, h4, h5, h6, h7, h8, h9, h10, h11, h12, h13, h14, h15, h16⟩ := h
+  unfold fwdHandle
+  split
+  · constructor <;> assumption
+  · rename_i e rest hq
+    simp only
+    split
+    · rename_i hk
+      constructor <;> simp_all [St.published, execOf, respOf]
+    · rename_i name f hk
+      constructor <;> simp_all [St.published, execOf, respOf] <;> grind
+
+theorem inv_fwdResponses (P : Params σ) (s : St σ) (h : Inv P s) : Inv P (fwdResponses P s).1 := by
+  obtain ⟨h1, h2, h3, h4, h5, h6, h7, h8, h9, h10, h11, h12, h13, h14, h15, h16⟩ := h
+  unfold fwdResponses
+  split
+  · constructor <;> assumption
+  · rename_i r rest hq
+    constructor <;>
+      simp_all [St.published, deliverFwd, addData, mkAction, acOfEvent, acOfResp] <;> grind
+
+theorem inv_fwd (P : Params σ) (s : St σ) (h : Inv P s) : Inv P (fwdUpdate P s).1 := by
+  unfold fwdUpdate
+  exact inv_fwdResponses P _ (inv_fwdHandle P s h)
+
+theorem inv_task (P : Params σ) (t : Task) (s : St σ) (h : Inv P s) : Inv P (taskUpdate P t s).1 := by
+  cases t
+  · exact inv_recv P s h
+  · exact inv_dec P s h
+  · exact inv_prod P s h
+  · exact inv_fwd P s h
+
+/-! ### predicates closed under the atomic steps are closed under the engine loop -/
+
+structure Closed (P : Params σ) (I : St σ → Prop) : Prop where
+  task  : ∀ t s, I s → I (taskUpdate P t s).1
+  clear : ∀ s, I s → I { s with err := none }
+
+theorem whileLoop_closed {I : St σ → Prop} (upd : St σ → St σ × Bool) (hu : ∀ s, I s → I (upd s).1) :
+    ∀ fuel s, I s → I (whileLoop upd fuel s).1 := by
+  intro fuel
+  induction fuel with
+  | zero => intro s h; simpa [whileLoop] using h
+  | succ n ih =>
+    intro s h
+    simp only [whileLoop]
+    split
+    · exact hu s h
+    · split
+      · exact ih _ (hu s h)
+      · exact hu s h
+
+theorem forLoop_closed {I : St σ → Prop} (upd : St σ → St σ × Bool) (early : Bool) (hu : ∀ s, I s → I (upd s).1) :
+    ∀ n s, I s → I (forLoop upd early n s) := by
+  intro n
+  induction n with
+  | zero => intro s h; simpa [forLoop] using h
+  | succ n ih =>
+    intro s h
+    simp only [forLoop]
+    split
+    · exact hu s h
+    · split
+      · exact hu s h
+      · exact ih _ (hu s h)
+
+theorem runTaskFuel_closed {P : Params σ} {I : St σ → Prop} (ht : ∀ t s, I s → I (taskUpdate P t s).1)
+    (c : Cfg) (fuel : Nat) (s : St σ) (tt : Task × Nat) (h : I s) : I (runTaskFuel P c fuel s tt) := by
+  unfold runTaskFuel
+  split
+  · exact h
+  · split
+    · exact whileLoop_closed _ (ht tt.1) _ _ h
+    · exact forLoop_closed _ _ (ht tt.1) _ _ h
+
+theorem foldl_runTask_closed {P : Params σ} {I : St σ → Prop} (ht : ∀ t s, I s → I (taskUpdate P t s).1)
+    (c : Cfg) : ∀ (l : List (Task × Nat)) (s : St σ), I s → I (l.foldl (runTask P c) s) := by
+  intro l
+  induction l with
+  | nil => intro s h; simpa using h
+  | cons tt l ih => intro s h; exact ih _ (runTaskFuel_closed ht c _ s tt h)
+
+theorem engineUpdate_closed {P : Params σ} {I : St σ → Prop} (hc : Closed P I) (c : Cfg) (s : St σ) (h : I s) :
+    I (engineUpdate P c s) :=
+  foldl_runTask_closed hc.task c _ _ (hc.clear s h)
+
+theorem runOps_closed {P : Params σ} {I : St σ → Prop} (hc : Closed P I)
+    (hadd : ∀ it s, I s → I (addData .ext it s)) (c : Cfg) :
+    ∀ (ops : List Op) (s : St σ), I s → I (runOps P c s ops) := by
+  intro ops
+  induction ops with
+  | nil => intro s h; simpa [runOps] using h
+  | cons o ops ih =>
+    intro s h
+    simp only [runOps, List.foldl_cons]
+    apply ih
+    cases o with
+    | add it => exact hadd it s h
+    | update => exact engineUpdate_closed hc c s h
+
+theorem inv_closed (P : Params σ) : Closed P (Inv P) := ⟨inv_task P, inv_clear P⟩
+
+/-! ### the effect of one task update on the queue lengths and on the numbers of items taken -/
+
+structure Lens where
+  rq : Nat
+  dq : Nat
+  pq : Nat
+  fq : Nat
+  hq : Nat
+  sR : Nat   -- items the receiver took
+  sD : Nat   -- events the decider took
+  sP : Nat   -- runs the producer took
+  sF : Nat   -- complex events the forwarder took
+  sH : Nat   -- responses the forwarder took
+
+def lens (s : St σ) : Lens :=
+  ⟨s.rq.length, s.dq.length, s.pq.length, s.fq.length, s.hq.length,
+   s.popped.length, s.seen.length, s.prodPopped.length, s.fwdPopped.length, s.respPopped.length⟩
+
+def HandleEff (a b : Lens) : Prop :=
+  (a.fq = 0 ∧ b = a) ∨
+  (a.fq > 0 ∧ b.fq + 1 = a.fq ∧ b.sF = a.sF + 1 ∧ a.hq ≤ b.hq ∧ b.hq ≤ a.hq + 1 ∧
+    b.rq = a.rq ∧ b.dq = a.dq ∧ b.pq = a.pq ∧ b.sR = a.sR ∧ b.sD = a.sD ∧ b.sP = a.sP ∧ b.sH = a.sH)
+
+def RespEff (a b : Lens) : Prop :=
+  (a.hq = 0 ∧ b = a) ∨
+  (a.hq > 0 ∧ b.hq + 1 = a.hq ∧ b.sH = a.sH + 1 ∧ b.rq = a.rq + 1 ∧
+    b.fq = a.fq ∧ b.dq = a.dq ∧ b.pq = a.pq ∧ b.sR = a.sR ∧ b.sD = a.sD ∧ b.sP = a.sP ∧ b.sF = a.sF)
+
+/-- one `update()` of task `t`, seen through the lengths. -/
+def Eff : Task → Lens → Lens → Prop
+  | .receiver, a, b =>
+    (a.rq = 0 ∧ b = a) ∨
+    (a.rq > 0 ∧ b.rq + 1 = a.rq ∧ b.sR = a.sR + 1 ∧ a.dq ≤ b.dq ∧ b.dq ≤ a.dq + 1 ∧
+      b.pq = a.pq ∧ b.fq = a.fq ∧ b.hq = a.hq ∧ b.sD = a.sD ∧ b.sP = a.sP ∧ b.sF = a.sF ∧ b.sH = a.sH)
+  | .decider, a, b =>
+    (a.dq = 0 ∧ b = a) ∨
+    (a.dq > 0 ∧ b.dq + 1 = a.dq ∧ b.sD = a.sD + 1 ∧ a.pq ≤ b.pq ∧
+      b.rq = a.rq ∧ b.fq = a.fq ∧ b.hq = a.hq ∧ b.sR = a.sR ∧ b.sP = a.sP ∧ b.sF = a.sF ∧ b.sH = a.sH)
+  | .producer, a, b =>
+    (a.pq = 0 ∧ b = a) ∨
+    (a.pq > 0 ∧ b.pq + 1 = a.pq ∧ b.sP = a.sP + 1 ∧ a.rq ≤ b.rq ∧ b.rq ≤ a.rq + 1 ∧ a.fq ≤ b.fq ∧ b.fq ≤ a.fq + 1 ∧
+      b.dq = a.dq ∧ b.hq = a.hq ∧ b.sR = a.sR ∧ b.sD = a.sD ∧ b.sF = a.sF ∧ b.sH = a.sH)
+  | .forwarder, a, b => ∃ m, HandleEff a m ∧ RespEff m b
+
+theorem eff_handle (P : Params σ) (s : St σ) : HandleEff (lens s) (lens (fwdHandle P s).1) := by
+  unfold fwdHandle HandleEff
+  split
+  · rename_i h; left; simp [lens, h]
+  · rename_i e rest h
+    right
+    simp only
+    split <;> simp [lens, h]
+
+theorem eff_resp (P : Params σ) (s : St σ) : RespEff (lens s) (lens (fwdResponses P s).1) := by
+  unfold fwdResponses RespEff
+  split
+  · rename_i h; left; simp [lens, h]
+  · rename_i r rest h
+    right
+    simp [lens, h, deliverFwd, addData]
+
+theorem eff_task (P : Params σ) (t : Task) (s : St σ) : Eff t (lens s) (lens (taskUpdate P t s).1) := by
+  cases t
+  · simp only [taskUpdate, recvUpdate, Eff]
+    split
+    · rename_i h; left; simp [lens, h]
+    · rename_i it rest h
+      right
+      simp only [processData]
+      split
+      · simp [lens, h]
+      · cases it <;> simp [lens, h, deliverRecv]
+  · simp only [taskUpdate, decUpdate, Eff]
+    split
+    · rename_i h; left; simp [lens, h]
+    · rename_i e rest h
+      right
+      split <;> simp [lens, h, deliverDec]
+  · simp only [taskUpdate, prodUpdate, Eff]
+    split
+    · rename_i h; left; simp [lens, h]
+    · rename_i r loc rest h
+      right
+      split
+      · simp [lens, h]
+      · simp only [subsOf_producer, List.foldl_cons, List.foldl_nil, deliverProd]
+        split <;> simp [lens, h, addData]
+  · simp only [taskUpdate, fwdUpdate, Eff]
+    exact ⟨_, eff_handle P s, eff_resp P _⟩
+
+/-- an `update()` on empty queue(s) does nothing and returns False. -/
+theorem update_empty (P : Params σ) (t : Task) (s : St σ) (h : taskMeasure t s = 0) :
+    taskUpdate P t s = (s, false) := by
+  cases t <;> simp only [taskMeasure, List.length_eq_zero_iff, Nat.add_eq_zero_iff] at h
+  · simp [taskUpdate, recvUpdate, h]
+  · simp [taskUpdate, decUpdate, h]
+  · simp [taskUpdate, prodUpdate, h]
+  · simp [taskUpdate, fwdUpdate, fwdHandle, fwdResponses, h.1, h.2]
+
+theorem taskMeasure_lens (t : Task) (s : St σ) :
+    taskMeasure t s = match t with
+      | .receiver => (lens s).rq | .decider => (lens s).dq | .producer => (lens s).pq
+      | .forwarder => (lens s).fq + (lens s).hq := by
+  cases t <;> rfl
+
+/-! ### termination of the `while task.update()` loops -/
+
+theorem update_true_decreases (P : Params σ) (t : Task) (s : St σ) (h : (taskUpdate P t s).2 = true) :
+    taskMeasure t (taskUpdate P t s).1 < taskMeasure t s := by
+  have hpos : taskMeasure t s ≠ 0 := by
+    intro h0; rw [update_empty P t s h0] at h; simp at h
+  have he := eff_task P t s
+  rw [taskMeasure_lens, taskMeasure_lens] at *
+  cases t <;> simp only [Eff, HandleEff, RespEff] at he hpos ⊢
+  · omega
+  · omega
+  · omega
+  · obtain ⟨m, h1, h2⟩ := he
+    rcases h1 with ⟨h1, rfl⟩ | h1 <;> rcases h2 with ⟨h2, e2⟩ | h2 <;> (try rw [e2]) <;> omega
+
+/-- with fuel above the measure the loop never runs out, and more fuel changes nothing. -/
+theorem whileLoop_fuel (upd : St σ → St σ × Bool) (m : St σ → Nat)
+    (hm : ∀ s, (upd s).2 = true → m (upd s).1 < m s) :
+    ∀ fuel s, m s < fuel →
+      (whileLoop upd fuel s).2 = false ∧ ∀ fuel', fuel ≤ fuel' → whileLoop upd fuel' s = whileLoop upd fuel s := by
+  intro fuel
+  induction fuel with
+  | zero => intro s h; omega
+  | succ n ih =>
+    intro s h
+    constructor
+    · simp only [whileLoop]
+      split
+      · rfl
+      · split
+        · rename_i hb
+          exact (ih _ (by have := hm s hb; omega)).1
+        · rfl
+    · intro fuel' hf
+      obtain ⟨k, rfl⟩ : ∃ k, fuel' = k + 1 := ⟨fuel' - 1, by omega⟩
+      simp only [whileLoop]
+      split
+      · rfl
+      · split
+        · rename_i hb
+          exact (ih _ (by have := hm s hb; omega)).2 k (by omega)
+        · rfl
+
+/-! ### no exception: every completed run names a phenomenon the producer knows -/
+
+/-- `Q` is an invariant of the matcher state under which every completed run it reports is known to the producer. -/
+def StableOut (P : Params σ) (Q : σ → Prop) : Prop :=
+  ∀ ds, Q ds → ∀ e, Q (P.decide ds e).1 ∧ ∀ r ∈ (P.decide ds e).2.completed, (P.datagenOf r.phen).isSome = true
+
+/-- under `Q` the matcher completes nothing any more (a feedback-quiet suffix). -/
+def Quiet (P : Params σ) (Q : σ → Prop) : Prop :=
+  ∀ ds, Q ds → ∀ e, Q (P.decide ds e).1 ∧ (P.decide ds e).2.completed = []
+
+theorem Quiet.stable {P : Params σ} {Q : σ → Prop} (h : Quiet P Q) : StableOut P Q := by
+  intro ds hq e
+  refine ⟨(h ds hq e).1, ?_⟩
+  rw [(h ds hq e).2]; simp
+
+def Healthy (P : Params σ) (Q : σ → Prop) (s : St σ) : Prop :=
+  s.err = none ∧ (∀ x ∈ s.pq, (P.datagenOf x.1.phen).isSome = true) ∧ Q s.ds
+
+theorem healthy_task {P : Params σ} {Q : σ → Prop} (hs : StableOut P Q) (t : Task) (s : St σ)
+    (h : Healthy P Q s) : Healthy P Q (taskUpdate P t s).1 := by
+  obtain ⟨he, hp, hq⟩ := h
+  cases t
+  · simp only [taskUpdate, recvUpdate]
+    split
+    · exact ⟨he, hp, hq⟩
+    · rename_i it rest h
+      simp only [processData]
+      split
+      · exact ⟨he, hp, hq⟩
+      · cases it <;> exact ⟨by simpa [deliverRecv] using he, by simpa [deliverRecv] using hp, by simpa [deliverRecv] using hq⟩
+  · simp only [taskUpdate, decUpdate]
+    split
+    · exact ⟨he, hp, hq⟩
+    · rename_i e rest h
+      have hd := hs _ hq e
+      split
+      · refine ⟨by simpa [deliverDec] using he, ?_, by simpa [deliverDec] using hd.1⟩
+        intro x hx
+        simp only [deliverDec, subsOf_decider, List.foldl_cons, List.foldl_nil, List.mem_append, List.mem_map] at hx
+        rcases hx with hx | ⟨r, hr, rfl⟩
+        · exact hp x hx
+        · exact hd.2 r hr
+      · exact ⟨he, fun x hx => hp x hx, hd.1⟩
+  · simp only [taskUpdate, prodUpdate]
+    split
+    · exact ⟨he, hp, hq⟩
+    · rename_i r loc rest h
+      have hk : (P.datagenOf r.phen).isSome = true := hp (r, loc) (by simp [h])
+      have hrest : ∀ x ∈ rest, (P.datagenOf x.1.phen).isSome = true := fun x hx => hp x (by simp [h, hx])
+      split
+      · rename_i hn; simp [hn] at hk
+      · simp only [subsOf_producer, List.foldl_cons, List.foldl_nil, deliverProd]
+        split <;> exact ⟨by simpa [addData] using he, by simpa [addData] using hrest, by simpa [addData] using hq⟩
+  · simp only [taskUpdate, fwdUpdate, fwdHandle, fwdResponses]
+    split <;> split <;> (try split) <;>
+      exact ⟨by simpa [deliverFwd, addData] using he, by simpa [deliverFwd, addData] using hp,
+        by simpa [deliverFwd, addData] using hq⟩
+
+theorem healthy_closed {P : Params σ} {Q : σ → Prop} (hs : StableOut P Q) : Closed P (Healthy P Q) :=
+  ⟨healthy_task hs, fun s h => ⟨rfl, h.2.1, h.2.2⟩⟩
+
+theorem healthy_add {P : Params σ} {Q : σ → Prop} (it : Item) (s : St σ) (h : Healthy P Q s) :
+    Healthy P Q (addData .ext it s) := by
+  simpa [Healthy, addData] using h
+
+/-! ### one engine update runs every task at least once -/
+
+theorem forLoop_id (upd : St σ → St σ × Bool) (early : Bool) (s : St σ) (h : upd s = (s, false)) :
+    ∀ n, forLoop upd early n s = s := by
+  intro n
+  induction n with
+  | zero => rfl
+  | succ n ih =>
+    simp only [forLoop, h]
+    split
+    · rfl
+    · split
+      · rfl
+      · exact ih
+
+/-- a task whose queue(s) are empty is not changed by its turn. -/
+theorem runTask_id (P : Params σ) (c : Cfg) (t : Task) (n : Nat) (s : St σ) (h0 : taskMeasure t s = 0) :
+    runTask P c s (t, n) = s := by
+  have hu := update_empty P t s h0
+  unfold runTask runTaskFuel
+  split
+  · rfl
+  · split
+    · simp [h0, whileLoop, hu]
+    · exact forLoop_id _ _ _ hu _
+
+/-- a turn of task `t` = one `update()` followed by more `update()`s of the same task. -/
+theorem runTask_after_first {P : Params σ} {J : St σ → Prop} (c : Cfg) (t : Task) (n : Nat) (s : St σ)
+    (hJ : ∀ a, J a → J (taskUpdate P t a).1) (he : s.err = none) (h1 : J (taskUpdate P t s).1) :
+    J (runTask P c s (t, n)) := by
+  unfold runTask runTaskFuel
+  simp only [he, Option.isSome_none, Bool.false_eq_true, if_false]
+  by_cases hn : n = 0
+  · simp only [loopOf, hn, if_true, whileLoop]
+    split
+    · exact h1
+    · split
+      · exact whileLoop_closed _ hJ _ _ h1
+      · exact h1
+  · obtain ⟨k, rfl⟩ : ∃ k, n = k + 1 := ⟨n - 1, by omega⟩
+    simp only [loopOf, hn, if_false, forLoop]
+    split
+    · exact h1
+    · split
+      · exact h1
+      · exact forLoop_closed _ _ hJ _ _ h1
+
+/-- schedule-generic service lemma: if `t` has a turn in `l`, what its first update establishes (`J`) holds at the end. -/
+theorem foldl_service {P : Params σ} (c : Cfg) (t : Task) (M J H : St σ → Prop)
+    (hM : ∀ t' a, M a → M (taskUpdate P t' a).1)
+    (hJ : ∀ t' a, J a → J (taskUpdate P t' a).1)
+    (hH : ∀ t' a, H a → H (taskUpdate P t' a).1) (hHe : ∀ a, H a → a.err = none)
+    (hfirst : ∀ a, M a → H a → J (taskUpdate P t a).1) :
+    ∀ (l : List (Task × Nat)) a, M a → H a → (∃ n, (t, n) ∈ l) → J (l.foldl (runTask P c) a) := by
+  intro l
+  induction l with
+  | nil => intro a _ _ h; simp at h
+  | cons tt l ih =>
+    intro a hm hh hex
+    obtain ⟨t', n'⟩ := tt
+    simp only [List.foldl_cons]
+    by_cases ht : t' = t
+    · subst ht
+      apply foldl_runTask_closed hJ
+      exact runTask_after_first c t' n' a (hJ t') (hHe a hh) (hfirst a hm hh)
+    · apply ih
+      · exact runTaskFuel_closed hM c _ a _ hm
+      · exact runTaskFuel_closed hH c _ a _ hh
+      · obtain ⟨n, hn⟩ := hex
+        simp only [List.mem_cons, Prod.mk.injEq] at hn
+        rcases hn with ⟨h1, _⟩ | hn
+        · exact absurd h1.symm ht
+        · exact ⟨n, hn⟩
+
+/-- schedule-generic progress lemma: if some task of `l` has work, a quantity that every update does not increase and
+every update with work strictly decreases is strictly smaller at the end. -/
+theorem foldl_progress {P : Params σ} (c : Cfg) (μ : St σ → Nat) (H : St σ → Prop)
+    (hH : ∀ t a, H a → H (taskUpdate P t a).1) (hHe : ∀ a, H a → a.err = none)
+    (hmono : ∀ t a, H a → μ (taskUpdate P t a).1 ≤ μ a)
+    (hstrict : ∀ t a, H a → taskMeasure t a ≠ 0 → μ (taskUpdate P t a).1 < μ a) :
+    ∀ (l : List (Task × Nat)) a, H a → (∃ tt ∈ l, taskMeasure tt.1 a ≠ 0) → μ (l.foldl (runTask P c) a) < μ a := by
+  intro l
+  induction l with
+  | nil => intro a _ h; simp at h
+  | cons tt l ih =>
+    intro a hh hex
+    obtain ⟨t', n'⟩ := tt
+    simp only [List.foldl_cons]
+    by_cases h0 : taskMeasure t' a = 0
+    · rw [runTask_id P c t' n' a h0]
+      apply ih a hh
+      obtain ⟨x, hx, hx0⟩ := hex
+      simp only [List.mem_cons] at hx
+      rcases hx with rfl | hx
+      · exact absurd h0 hx0
+      · exact ⟨x, hx, hx0⟩
+    · -- J b := H b ∧ μ b < μ a
+      have hJ : ∀ t'' b, (H b ∧ μ b < μ a) → (H (taskUpdate P t'' b).1 ∧ μ (taskUpdate P t'' b).1 < μ a) := by
+        intro t'' b hb
+        exact ⟨hH t'' b hb.1, Nat.lt_of_le_of_lt (hmono t'' b hb.1) hb.2⟩
+      have h1 : H (runTask P c a (t', n')) ∧ μ (runTask P c a (t', n')) < μ a :=
+        runTask_after_first (J := fun b => H b ∧ μ b < μ a) c t' n' a (hJ t') (hHe a hh)
+          ⟨hH t' a hh, hstrict t' a hh h0⟩
+      exact (foldl_runTask_closed (I := fun b => H b ∧ μ b < μ a) hJ c l _ h1).2
+
+/-! ### arithmetic consequences of `Eff` (what `omega` needs) -/
+
+theorem eff_mono {t : Task} {a b : Lens} (h : Eff t a b) :
+    a.sR ≤ b.sR ∧ a.sD ≤ b.sD ∧ a.sP ≤ b.sP ∧ a.sF ≤ b.sF ∧ a.sH ≤ b.sH ∧
+    a.sR + a.rq ≤ b.sR + b.rq ∧ a.sD + a.dq ≤ b.sD + b.dq ∧ a.sP + a.pq ≤ b.sP + b.pq ∧
+    a.sF + a.fq ≤ b.sF + b.fq ∧ a.sH + a.hq ≤ b.sH + b.hq := by
+  cases t <;> simp only [Eff, HandleEff, RespEff] at h
+  · rcases h with ⟨_, rfl⟩ | h <;> omega
+  · rcases h with ⟨_, rfl⟩ | h <;> omega
+  · rcases h with ⟨_, rfl⟩ | h <;> omega
+  · obtain ⟨m, h1, h2⟩ := h
+    rcases h1 with ⟨_, rfl⟩ | h1 <;> rcases h2 with ⟨_, rfl⟩ | h2 <;> omega
+
+theorem eff_own_R {a b : Lens} (h : Eff .receiver a b) : min (a.sR + a.rq) (a.sR + 1) ≤ b.sR := by
+  simp only [Eff] at h; rcases h with ⟨_, rfl⟩ | h <;> omega
+theorem eff_own_D {a b : Lens} (h : Eff .decider a b) : min (a.sD + a.dq) (a.sD + 1) ≤ b.sD := by
+  simp only [Eff] at h; rcases h with ⟨_, rfl⟩ | h <;> omega
+theorem eff_own_P {a b : Lens} (h : Eff .producer a b) : min (a.sP + a.pq) (a.sP + 1) ≤ b.sP := by
+  simp only [Eff] at h; rcases h with ⟨_, rfl⟩ | h <;> omega
+theorem eff_own_F {a b : Lens} (h : Eff .forwarder a b) : min (a.sF + a.fq) (a.sF + 1) ≤ b.sF := by
+  simp only [Eff, HandleEff, RespEff] at h
+  obtain ⟨m, h1, h2⟩ := h
+  rcases h1 with ⟨_, rfl⟩ | h1 <;> rcases h2 with ⟨_, rfl⟩ | h2 <;> omega
+theorem eff_own_H {a b : Lens} (h : Eff .forwarder a b) : min (a.sH + a.hq) (a.sH + 1) ≤ b.sH := by
+  simp only [Eff, HandleEff, RespEff] at h
+  obtain ⟨m, h1, h2⟩ := h
+  rcases h1 with ⟨_, rfl⟩ | h1 <;> rcases h2 with ⟨_, rfl⟩ | h2 <;> omega
+
+/-- weighted number of hand-overs still to come if the matcher completes nothing any more. -/
+def mu (a : Lens) : Nat := 7 * a.pq + 4 * a.fq + 3 * a.hq + 2 * a.rq + a.dq
+
+theorem mu_eff {t : Task} {a b : Lens} (h : Eff t a b) (hd : t = .decider → b.pq = a.pq) :
+    mu b ≤ mu a ∧
+    ((match t with | .receiver => a.rq | .decider => a.dq | .producer => a.pq | .forwarder => a.fq + a.hq) ≠ 0 →
+      mu b < mu a) := by
+  cases t <;> simp only [Eff, HandleEff, RespEff, mu] at h ⊢
+  · rcases h with ⟨_, rfl⟩ | h <;> omega
+  · have := hd rfl
+    rcases h with ⟨_, rfl⟩ | h <;> omega
+  · rcases h with ⟨_, rfl⟩ | h <;> omega
+  · obtain ⟨m, h1, h2⟩ := h
+    rcases h1 with ⟨_, rfl⟩ | h1 <;> rcases h2 with ⟨_, rfl⟩ | h2 <;> omega
+
+theorem dec_pq_quiet {P : Params σ} {Q : σ → Prop} (hq : Quiet P Q) (s : St σ) (h : Q s.ds) :
+    (decUpdate P s).1.pq = s.pq := by
+  unfold decUpdate
+  split
+  · rfl
+  · rename_i e rest he
+    simp only
+    split
+    · simp [deliverDec, (hq _ h e).2]
+    · rfl
+
+theorem mu_task {P : Params σ} {Q : σ → Prop} (hq : Quiet P Q) (t : Task) (s : St σ) (h : Healthy P Q s) :
+    mu (lens (taskUpdate P t s).1) ≤ mu (lens s) ∧
+    (taskMeasure t s ≠ 0 → mu (lens (taskUpdate P t s).1) < mu (lens s)) := by
+  have := mu_eff (eff_task P t s) (by
+    intro ht; subst ht
+    simp only [lens, taskUpdate]
+    rw [dec_pq_quiet hq s h.2.2])
+  rw [taskMeasure_lens]
+  exact this
+
+/-- schedule-generic: the served count of a channel grows by at least one per engine update while it has work. -/
+theorem serve_generic {P : Params σ} {Q : σ → Prop} (c : Cfg) (sv pd : Lens → Nat) (t : Task)
+    (hmono : ∀ t' a b, Eff t' a b → sv a ≤ sv b ∧ sv a + pd a ≤ sv b + pd b)
+    (hown : ∀ a b, Eff t a b → min (sv a + pd a) (sv a + 1) ≤ sv b)
+    (hs : StableOut P Q) (s : St σ) (hh : Healthy P Q s) :
+    min (sv (lens s) + pd (lens s)) (sv (lens s) + 1) ≤ sv (lens (engineUpdate P c s)) := by
+  have hex : ∃ n, (t, n) ∈ schedule c := by
+    cases t
+    · exact ⟨c.tR, by simp [schedule]⟩
+    · exact ⟨c.tD, by simp [schedule]⟩
+    · exact ⟨c.tP, by simp [schedule]⟩
+    · exact ⟨c.tF, by simp [schedule]⟩
+  let a0 := lens s
+  refine foldl_service (P := P) c t
+    (fun a => sv a0 ≤ sv (lens a) ∧ sv a0 + pd a0 ≤ sv (lens a) + pd (lens a))
+    (fun a => min (sv a0 + pd a0) (sv a0 + 1) ≤ sv (lens a))
+    (Healthy P Q) ?_ ?_ (healthy_task hs) (fun a h => h.1) ?_ (schedule c) _ ?_ ?_ hex
+  · intro t' a hm
+    have := hmono t' _ _ (eff_task P t' a)
+    omega
+  · intro t' a hj
+    have := hmono t' _ _ (eff_task P t' a)
+    omega
+  · intro a hm _
+    have := hown _ _ (eff_task P t a)
+    omega
+  · exact ⟨Nat.le_refl _, Nat.le_refl _⟩
+  · exact ⟨rfl, hh.2.1, hh.2.2⟩
 
 end Bobo.Engine
